@@ -123,6 +123,8 @@ def ref_encode(msg, cfgs, enc='latin_1', hex_bitmap=False):
         pt = cfg.get('field_python_type')
         if pt in ('int', 'long'):
             v = '%0*d' % (w, int(v))
+        elif pt == 'decimal':
+            v = format(v, '0%df' % w)
         elif pt == 'datetime':
             v = v.strftime(cfg.get('field_date_format', '%y%m%d'))
         n = _flen(cfg)
@@ -241,6 +243,12 @@ def ref_decode(data, cfgs, enc='latin_1', hex_bitmap=False, strict_digits=True):
                 v = int(v)
             except ValueError:
                 raise RefError('DE%d not a number' % b)
+        elif pt == 'decimal':
+            import decimal
+            try:
+                v = decimal.Decimal(v)
+            except decimal.InvalidOperation:
+                raise RefError('DE%d not a decimal' % b)
         elif pt == 'datetime':
             try:
                 v = datetime.datetime.strptime(v, cfg.get('field_date_format', '%y%m%d'))
@@ -283,7 +291,10 @@ def concrete_msg(msg, cfgs=None):
     """JSON witness -> python values (dates are {'date': True}: a date representable in the element's format)"""
     out = {}
     for k, v in msg.items():
-        if isinstance(v, dict) and v.get('date'):
+        if isinstance(v, dict) and 'decimal' in v:
+            import decimal
+            v = decimal.Decimal(v['decimal'])
+        elif isinstance(v, dict) and v.get('date'):
             v = SAMPLE_DATE
             if cfgs is not None and k.startswith('DE'):
                 fmt = cfgs.get(k[2:], {}).get('field_date_format', '%y%m%d')
